@@ -163,6 +163,10 @@ def oracle_all(hist: dict, r: dict, which: set) -> list:
                 if expiry.get(i) is None or t_d <= expiry[i]:
                     bad.append(("live_message_dead_lettered", f"message {i} (expiry {expiry.get(i)}) dead-lettered by a consumer at {t_d}", where))
         if "C11" in which and op in ("consume", "consume_many"):
+            for i, was in prev_places.items():
+                if was and not places.get(i):
+                    bad.append(("message_dropped_by_consume", f"message {i} (was in {was[0][0]}) is nowhere after a consume of "
+                                "a consumer that did not receive it", where))
             for i, pl in places.items():
                 if i in prev_msgs and i in msgs and (msgs[i][0], msgs[i][1]) != (prev_msgs[i][0], prev_msgs[i][1]):
                     bad.append(("consume_changed_message", f"payload/parameters of message {i} changed during a consume", where))
